@@ -9,28 +9,30 @@ import (
 )
 
 type Frame struct {
-	Fn          *ssa.Function
-	Block       *ssa.BasicBlock
-	Prev        *ssa.BasicBlock
-	Idx         int
-	Locals      map[ssa.Value]Value
-	Defers      []*deferred
-	Call        ssa.Instruction          // call instruction in the caller frame (nil for entry)
-	Bind        []Value                  // free variables (closures)
-	Peeled      map[*ssa.BasicBlock]bool // loop headers whose first (peeled) iteration is being executed
-	LoopHit     map[*ssa.BasicBlock]int
-	Cut         map[*ssa.BasicBlock]bool // loop headers already cut on this path
-	InDefer     bool
-	Results     Value // saved results while running defers
-	deferRet    bool
-	IsDeferCall bool
-	GhostIn     map[string]Value // values of named things at entry (params)
-	retDst      ssa.Value
-	OnReturn    func(ex *Exec, st *State, res Value) Value
-	CalleeName  string
-	CallArgs    []Value
-	Args        []Value
-	Names       map[string]Value
+	Fn           *ssa.Function
+	Block        *ssa.BasicBlock
+	Prev         *ssa.BasicBlock
+	Idx          int
+	Locals       map[ssa.Value]Value
+	Defers       []*deferred
+	Call         ssa.Instruction          // call instruction in the caller frame (nil for entry)
+	Bind         []Value                  // free variables (closures)
+	Peeled       map[*ssa.BasicBlock]bool // loop headers whose first (peeled) iteration is being executed
+	LoopHit      map[*ssa.BasicBlock]int
+	Cut          map[*ssa.BasicBlock]bool // loop headers already cut on this path
+	InDefer      bool
+	Results      Value // saved results while running defers
+	deferRet     bool
+	IsDeferCall  bool
+	GhostIn      map[string]Value // values of named things at entry (params)
+	retDst       ssa.Value
+	OnReturn     func(ex *Exec, st *State, res Value) Value
+	CalleeName   string
+	CallArgs     []Value
+	Args         []Value
+	Names        map[string]Value
+	LeftEarly    []*Clause        // covers clauses whose loop was left from its body on this path (decided at return)
+	CoverReached map[*Clause]bool // covers clauses whose loop was entered on this path
 }
 
 type deferred struct {
